@@ -32,10 +32,10 @@ ASSUMPTIONS = ["Verilog is executed by lib/vsim (own interpreter of the emitted 
                "5.1/5.4/5.5 runs first and makes the check inconclusive if it fails)",
                "combinational blocks are evaluated at time 0 (synthesis behaviour)", "uninitialised memory words read as 0; stimuli never "
                "address beyond a memory's depth", "vendor Instances are not executed", "two-state values"]
-FLOORS = {"quick": {"programs": 500, "ticks_compared": 60000, "signal_values_compared": 3000000, "corpus_programs": 60,
+FLOORS = {"quick": {"programs": 500, "ticks_compared": 35000, "signal_values_compared": 900000, "corpus_programs": 60,
                     "generated_programs": 400, "memory_words_compared": 100000},
-          "thorough": {"programs": 8000, "ticks_compared": 1000000, "signal_values_compared": 50000000, "corpus_programs": 300,
-                       "generated_programs": 7000, "memory_words_compared": 2000000}}
+          "thorough": {"programs": 25000, "ticks_compared": 1200000, "signal_values_compared": 25000000, "corpus_programs": 600,
+                       "generated_programs": 24000, "memory_words_compared": 5000000}}
 SHARD_TIMEOUT = {"quick": 900, "thorough": 3300}
 N_SAMPLES = 3
 
@@ -43,11 +43,11 @@ N_SAMPLES = 3
 def plan(tier, seed):
     cases = []
     corpus = c01corpus.names()
-    reps = 1 if tier == "quick" else 4
+    reps = 1 if tier == "quick" else 8
     for r in range(reps):
         for i, name in enumerate(corpus):
             cases.append({"kind": "corpus", "name": name, "seed": "%d/C01/corpus/%s/%d" % (seed, name, r), "ticks": 150 if tier == "quick" else 300})
-    n = 520 if tier == "quick" else 9000
+    n = 520 if tier == "quick" else 30000
     for k in range(n):
         cls = ["closed-unsigned", "closed-mixed", "closed-unsigned", "hostile"][k % 4]
         cases.append({"kind": "gen", "cls": cls, "wide": k % 11 == 0, "seed": "%d/C01/gen/%s/%d" % (seed, cls, k), "ticks": 60})
@@ -135,7 +135,7 @@ def compare_design(build, rng, nticks, two_clock_sched=None, regular_comb=True, 
             for k, s in enumerate(inputsA):
                 if idxA[s] in rst_idx and s is not (rsts[0] if rsts else None):
                     v[k] = 0
-                if nameA[idxA[s]].endswith("replace"):
+                if "replace" in nameA[idxA[s]]:
                     v[k] = 0          # SyncFIFO.replace without a previous write addresses word -1 (outside the memory)
     # clock schedule: tick t -> set of rising design domains
     if len(domains) > 1:
@@ -210,9 +210,21 @@ def compare_design(build, rng, nticks, two_clock_sched=None, regular_comb=True, 
     cls_ = None
     if mism:
         names = [m_["signal"].split("[")[0] for m_ in mism]
-        if classify.multi_clock_memory(vs):
+        # the statements that can have produced the FIRST disagreement (everything compared agreed until this tick)
+        cone, cmems = classify.cone(vs, names, set(nameA[i] for i in cmp_idx))
+        # memories whose ports (asynchronous read ports included) belong to different clock domains: LiteX forces all their
+        # ports to read-first
+        multi = set()
+        for mB, mname in zip(memsB, mem_names):
+            if len(set(getattr(p.clock, "cd", None) or id(p.clock) for p in mB.ports)) > 1:
+                multi.add(mname)
+        if multi & cmems:
             cls_ = "multi-clock-memory-emitted-read-first"
-        elif classify.width_sensitive_arith(vs, names):
+        elif classify.no_change_partial_we(vs, cone):
+            cls_ = "no-change-port-with-partial-write-enable(migen-MemoryToArray)"
+        elif classify.lossy_array_proxy(vs, cone):
+            cls_ = "array-of-mixed-signedness(migen-value_bits_sign)"
+        elif classify.width_sensitive_arith(cone):
             cls_ = "intermediate-overflow(arith-under-width-sensitive-operator)"
     return {"classified": cls_, "nmism": len(mism), "mism": mism[:3], "ticks": stats["ticks"], "vals": stats["vals"], "memw": stats["memw"], "changed": len(stats["changed"]),
             "nsig": len(cmp_idx), "nmem": len(memsA), "instances": ninst, "lines": text.count("\n"), "text_tail": None,
@@ -236,7 +248,8 @@ def run_case(case):
         return top, None
     nin_bits = sum(d["w"] for d in spec["sigs"] if d["kind"] == "in")
     comb_only = not spec["sync"] and not spec["mems"]
-    r = compare_design(b, rng, case["ticks"], regular_comb=spec["regular_comb"],
+    # the stimulus generator is independent of the design generator: a replay (spec given) sees the same vectors
+    r = compare_design(b, rng_for(case["seed"], "stimulus"), case["ticks"], regular_comb=spec["regular_comb"],
                        exhaustive_bits=nin_bits if (comb_only and nin_bits <= 10) else None)
     r["program"] = h(spec)
     r["spec"] = spec
